@@ -6,6 +6,8 @@ import XyzModel.Crop
 import XyzModel.ToDs
 import XyzModel.Sampler
 import XyzModel.CropFS
+import XyzModel.DrvNum
+import XyzModel.DrvScript
 /-! JSON-lines driver over the executable models (DESIGN.md Appendix B). One request per line, one reply per line. -/
 open Lean
 
@@ -217,6 +219,36 @@ def opFsTrace (j : Json) : Json :=
               ("first_bad", match FS.firstBad fin [] evs 0 with | some i => toJson i | none => Json.null),
               ("files", Json.mkObj (st.map fun (p, f) => (p, Json.mkObj [("size", toJson f.size), ("open", toJson f.openW)])))]
 
+/-- predicted observations of the read-side steps of a schedule, replayed on the file-system model -/
+def opFsSched (j : Json) : Json :=
+  let step (acc : FS.State × Array Json) (e : Json) : FS.State × Array Json :=
+    let (st, out) := acc
+    let p := getStr e "p"
+    match getStr e "op" with
+    | "create" => (FS.apply st (.openw 0 p true), out.push Json.null)
+    | "write" => (FS.apply st (.write 0 p (getNat e "n")), out.push Json.null)
+    | "close" => (FS.apply st (.close 0 p), out.push Json.null)
+    | "rename" => (FS.apply st (.rename 0 p (getStr e "q")), out.push Json.null)
+    | "unlink" => (FS.apply st (.unlink 0 p), out.push Json.null)
+    | "exists" => (st, out.push (toJson (FS.lookup st p).isSome))
+    | "isfile" => (st, out.push (toJson (FS.lookup st p).isSome))
+    | "openr" => (st, out.push (match FS.lookup st p with
+        | some f => Json.mkObj [("size", toJson f.size), ("open", toJson f.openW)]
+        | none => Json.null))
+    | "list" =>
+      let parts := p.splitOn "*"
+      let pre := parts.head!
+      let suf := parts.getLast!
+      let dir := (pre.splitOn "/").dropLast
+      let ms := st.filter fun (q, _) => q.startsWith pre && q.endsWith suf && q.length ≥ pre.length + suf.length
+        && (q.splitOn "/").dropLast == dir
+      (st, out.push (toJson ((ms.map (·.1)).mergeSort (· ≤ ·))))
+    | _ => (st, out.push Json.null)
+  let init : FS.State := (getArr j "initial").map fun f => (getStr f "p", { size := getNat f "size", openW := false })
+  let (st, out) := (getArr j "events").foldl step (init, #[])
+  Json.mkObj [("obs", Json.arr out),
+              ("files", Json.mkObj (st.map fun (p, f) => (p, Json.mkObj [("size", toJson f.size), ("open", toJson f.openW)])))]
+
 /-! ### sampler histories -/
 
 def rowsJson (kind : Value.Val) (t : Option (List (Sampler.Row Sym))) : Json :=
@@ -382,8 +414,15 @@ def handle (j : Json) : Json :=
   | "tods" => opToDs j
   | "sampler" => opSampler j
   | "fstrace" => opFsTrace j
+  | "fssched" => opFsSched j
   | "ping" => Json.mkObj [("pong", true)]
-  | o => err s!"bad-op {o}"
+  | o =>
+    match DrvNum.handleNum o j with
+    | some r => r
+    | none =>
+    match DrvScript.handleScript o j with
+    | some r => r
+    | none => err s!"bad-op {o}"
 
 partial def loop (h : IO.FS.Stream) (out : IO.FS.Stream) : IO Unit := do
   let line ← h.getLine
